@@ -29,4 +29,12 @@ CONTROLS += [
     dict(name="relative_filename falls back to a path relative to the working directory (`..` components; seed C20_f shape)",
          edits=[("cdd/shared/pkg_utils.py", "        filename,\n    )\n", "        __import__(\"os\").path.relpath(filename),\n    )\n")],
          expect=r"relative_filename/ensures\[0\]"),
+    dict(name="get_module_contents keys an aliased re-export by its public alias (seed C20_i shape: the 'already in the file' test then misses and the source file is rewritten)",
+         edits=[("cdd/compound/exmod_utils.py", "                mod_to_symbol[import_from.module].append(name.name)\n", "                mod_to_symbol[import_from.module].append((name.name, name.asname))\n"),
+                ("cdd/compound/exmod_utils.py", "                node_name=node.name,\n", "                node_name=(asname if asname and node.name == submodule_name else node.name),\n"),
+                ("cdd/compound/exmod_utils.py", "            for submodule_name in submodule_names\n", "            for submodule_name, asname in submodule_names\n")],
+         expect=r"get_module_contents/symbol-keyed-by-its-own-name"),
+    dict(name="BENIGN: the key of a collected symbol is built with str.join", benign=True,
+         edits=[("cdd/compound/exmod_utils.py", '            "{module_name}{submodule_name}.{node_name}".format(\n                module_name="{}.".format(module_name) if module_name else "",\n                submodule_name=submodule_name,\n                node_name=node.name,\n            ): node\n',
+                 '            ".".join(filter(None, (module_name, submodule_name, node.name))): node\n')]),
 ]
